@@ -77,12 +77,14 @@ theorem undefused_transparent (m : Mode) (b : BaseClass) (ch : Chan) (mr : Bool)
 /-
   FULL STATEMENT (second sentence of the property), false for the code as it is:
     theorem clean_parsed : isDefused m b = true → outcome (plan m b ch) false scanEnd bufLen = .parsed
-  It fails on three channels, all as safe refusals (see the counter-examples below).
+  It fails on two channels of the repaired code (and on a third one, non-seekable raw streams, of the
+  current tree: finding C13-F1, repaired by notes/fixes/C13-raw-stream-defusable-reader.patch, which
+  the model already describes), all as safe refusals (see the counter-examples below).
 -/
 
 /-- decidable guard: the channels on which a clean document survives defusing -/
 def cleanGuard (pl : Plan) (scanEnd bufLen : Nat) : Bool :=
-  pl != .wrapRaw && pl != .refuse && (pl != .wrapBuffered || decide (scanEnd ≤ bufLen))
+  pl != .refuse && ((pl != .wrapBuffered && pl != .wrapRaw) || decide (scanEnd ≤ bufLen))
 
 /-- Documents without entity declarations are handed to the parser (from the start of the stream,
     see `scan_then_rewind`) on every channel satisfying the guard. -/
@@ -92,9 +94,9 @@ theorem clean_parsed_partial (m : Mode) (b : BaseClass) (ch : Chan) (scanEnd buf
   unfold cleanGuard at hg
   cases hpl : plan m b ch <;> simp_all [outcome]
 
-/-- C13-F1: a clean document on a non-seekable raw stream is refused (io.BufferedReader cannot be rewound) -/
-theorem clean_refused_counterexample_raw :
-    outcome (plan .always .absent ⟨false, .raw, false, false⟩) false 100 65536 = .oserror := by decide
+/-- C13-F2 on a raw stream: same buffer edge -/
+theorem clean_refused_counterexample_raw_bigprolog :
+    outcome (plan .always .absent ⟨false, .raw, false, false⟩) false 81820 65536 = .oserror := by decide
 
 /-- C13-F2: a clean document on a non-seekable buffered stream whose first start tag lies beyond
     the 64 KiB buffer is refused -/
